@@ -785,7 +785,18 @@ def pregen(ctx):
     """tie (T): re-translate find_entries_and_exits / find_parents_and_children / topological_sort of utils/graphflow.py of the
     tree under test into coq/gen/Gen_graphflow.v (a rejected translation leaves a stub that does not compile)"""
     from vlib import py2coq_graph
-    return py2coq_graph.pregen()
+    errs = [py2coq_graph.pregen()]
+    # second, independent unit: concat_multi_inputs of ops.py -> coq/gen/Gen_ops.v (tools/vlib/py2coq_ops.py; it only READS the
+    # graphflow translator to learn the signature of the callee find_parents_and_children).  A failure here never touches
+    # Gen_graphflow.v; it leaves a Gen_ops.v stub that does not compile, so proofs/Gen_ops_eq.v and props/C03.v stop checking.
+    try:
+        from vlib import py2coq_ops
+        errs.append(py2coq_ops.pregen())
+    except Exception:
+        import traceback
+        errs.append("unit ops: translator exception: " + traceback.format_exc()[-1500:])
+    errs = [e for e in errs if e]
+    return "\n".join(errs) if errs else None
 
 
 # ------------------------------------------------------------------------------------------ tie (T), executed
